@@ -387,6 +387,7 @@ def run(ctx: Ctx) -> None:
 
 # ---------------------------------------------------------------------------
 WITNESSES = [
+    {"name": "seeded-C12-7", "file": "algos/opt/base_optimization_library.py", "old": "\n    ALGORITHM_INFOS: ClassVar[dict[str, OptimizationAlgorithmDescription]] = {}\n    \"\"\"The description of the algorithms contained in the library.\"\"\"\n\n    def __init__(self, algo_name: str) -> None:  # noqa:D107\n        super().__init__(algo_name)\n        self._f_tol_tester = ObjectiveToleranceTester()\n        self._x_tol_tester = DesignToleranceTester()\n\n    def _check_constraints_handling(self, problem: OptimizationProblem) -> None:\n        \"\"\"Check if problem and algorithm are consistent for constraints handling.\"\"\"\n        algo_name = self._algo_name\n        if (\n            tuple(problem.constraints.get_equality_constraints())\n            and not self.ALGORITHM_INFOS[algo_name].handle_equality_constraints\n        ):\n            msg = (\n                \"Requested optimization algorithm \"\n                f\"{algo_name} can not handle equality constraints.\"\n            )\n            raise ValueError(msg)\n        if (\n            tuple(problem.constraints.get_inequality_constraints())\n            and not self.ALGORITHM_INFOS[algo_name].handle_inequality_constraints\n        ):\n            msg = (\n                \"Requested optimization algorithm \"\n                f\"{algo_name} can not handle inequality constraints.\"\n            )\n            raise ValueError(msg)\n\n    def _get_right_sign_constraints(self, problem: OptimizationProblem):\n        \"\"\"Transform the problem constraints into their opposite sign counterpart.\n\n        This is done if the algorithm requires positive constraints.\n\n        Args:\n            problem: The problem to be solved.\n\n        Returns:\n            The constraints with the right sign.\n        \"\"\"\n        if (\n            tuple(problem.constraints.get_inequality_constraints())\n            and self.ALGORITHM_INFOS[self._algo_name].positive_constraints\n        ):\n            return [-constraint for constraint in problem.constraints]\n        return problem.constraints\n\n    def _pre_run(self, problem: OptimizationProblem, **settings: Any) -> None:\n        super()._pre_run(problem, **settings)\n\n        self._check_constraints_handling(problem)\n\n        n_points = settings[self._STOP_CRIT_NX]\n\n        self._f_tol_tester = ObjectiveToleranceTester(\n            absolute=settings[self._F_TOL_ABS],\n            relative=settings[self._F_TOL_REL],\n            n_last_iterations=n_points,\n        )\n\n        self._x_tol_tester = DesignToleranceTester(\n            absolute=settings[self._X_TOL_ABS],\n            relative=settings[self._X_TOL_REL],\n            n_last_iterations=n_points,\n        )\n\n        self._init_iter_observer(problem, settings[self._MAX_ITER])\n\n        require_gradient = self.ALGORITHM_INFOS[self._algo_name].require_gradient\n        if require_gradient:\n            kkt_abs_tol = settings[self._KKT_TOL_ABS]\n            kkt_rel_tol = settings[self._KKT_TOL_REL]\n            if not isinf(kkt_abs_tol) or not isinf(kkt_rel_tol):\n                problem.add_listener(\n                    _KKTChecker(\n                        problem,\n                        kkt_abs_tol,\n                        kkt_rel_tol,\n                        settings[self._INEQ_TOLERANCE],\n                    ),\n                    at_each_iteration=False,\n                    at_each_function_call=True,\n                )\n\n        problem.design_space.initialize_missing_current_values()\n        if problem.differentiation_method == self.DifferentiationMethod.COMPLEX_STEP:\n            problem.design_space.to_complex()\n\n        # First, evaluate all functions at x_0. Some algorithms don't do this\n        output_functions, jacobian_functions = problem.get_functions(\n            jacobian_names=() if require_gradient else None,\n            evaluate_objective=True,\n            observable_names=None,\n        )\n\n        function_values, _ = problem.evaluate_functions(\n            design_vector_is_normalized=self._normalize_ds,\n            output_functions=output_functions or None,\n            jacobian_functions=jacobian_functions or None,\n        )\n\n        scaling_threshold = settings[self._SCALING_THRESHOLD]\n        if scaling_threshold is not None:\n            self._problem.objective = self.__scale(\n                self._problem.objective,\n                function_values[self._problem.objective.name],\n                scaling_threshold,\n            )\n            self._problem.constraints = [\n                self.__scale(\n                    constraint, function_values[constraint.name], scaling_threshold\n                )\n                for constraint in self._problem.constraints\n            ]\n\n    @classmethod\n    def _get_unsuitability_reason(\n        cls,\n        algorithm_description: OptimizationAlgorithmDescription,\n        problem: OptimizationProblem,\n    ) -> _UnsuitabilityReason:\n        reason = super()._get_unsuitability_reason(algorithm_description, problem)\n        if reason:\n            return reason\n\n        if (\n            tuple(problem.constraints.get_equality_constraints())\n            and not algorithm_description.handle_equality_constraints\n        ):\n            return _UnsuitabilityReason.EQUALITY_CONSTRAINTS\n\n        if (\n            tuple(problem.constraints.get_inequality_constraints())\n            and not algorithm_description.handle_inequality_constraints\n        ):\n            return _UnsuitabilityReason.INEQUALITY_CONSTRAINTS\n\n        if not problem.is_linear and algorithm_description.for_linear_problems:\n            return _UnsuitabilityReason.NON_LINEAR_PROBLEM\n\n        return reason\n\n    def _new_iteration_callback(self, x_vect: ndarray) -> None:\n        super()._new_iteration_callback(x_vect)\n        self._f_tol_tester.check(self._problem, raise_exception=True)\n        self._x_tol_tester.check(self._problem, raise_exception=True)\n\n", "new": "\n    __kkt_checkers: list[_KKTChecker]\n    \"\"\"The KKT checkers attached to the database of the problem being solved.\"\"\"\n\n    ALGORITHM_INFOS: ClassVar[dict[str, OptimizationAlgorithmDescription]] = {}\n    \"\"\"The description of the algorithms contained in the library.\"\"\"\n\n    def __init__(self, algo_name: str) -> None:  # noqa:D107\n        super().__init__(algo_name)\n        self._f_tol_tester = ObjectiveToleranceTester()\n        self._x_tol_tester = DesignToleranceTester()\n        self.__kkt_checkers = []\n\n    def _check_constraints_handling(self, problem: OptimizationProblem) -> None:\n        \"\"\"Check if problem and algorithm are consistent for constraints handling.\"\"\"\n        algo_name = self._algo_name\n        if (\n            tuple(problem.constraints.get_equality_constraints())\n            and not self.ALGORITHM_INFOS[algo_name].handle_equality_constraints\n        ):\n            msg = (\n                \"Requested optimization algorithm \"\n                f\"{algo_name} can not handle equality constraints.\"\n            )\n            raise ValueError(msg)\n        if (\n            tuple(problem.constraints.get_inequality_constraints())\n            and not self.ALGORITHM_INFOS[algo_name].handle_inequality_constraints\n        ):\n            msg = (\n                \"Requested optimization algorithm \"\n                f\"{algo_name} can not handle inequality constraints.\"\n            )\n            raise ValueError(msg)\n\n    def _get_right_sign_constraints(self, problem: OptimizationProblem):\n        \"\"\"Transform the problem constraints into their opposite sign counterpart.\n\n        This is done if the algorithm requires positive constraints.\n\n        Args:\n            problem: The problem to be solved.\n\n        Returns:\n            The constraints with the right sign.\n        \"\"\"\n        if (\n            tuple(problem.constraints.get_inequality_constraints())\n            and self.ALGORITHM_INFOS[self._algo_name].positive_constraints\n        ):\n            return [-constraint for constraint in problem.constraints]\n        return problem.constraints\n\n    def _pre_run(self, problem: OptimizationProblem, **settings: Any) -> None:\n        super()._pre_run(problem, **settings)\n\n        self._check_constraints_handling(problem)\n\n        n_points = settings[self._STOP_CRIT_NX]\n\n        self._f_tol_tester = ObjectiveToleranceTester(\n            absolute=settings[self._F_TOL_ABS],\n            relative=settings[self._F_TOL_REL],\n            n_last_iterations=n_points,\n        )\n\n        self._x_tol_tester = DesignToleranceTester(\n            absolute=settings[self._X_TOL_ABS],\n            relative=settings[self._X_TOL_REL],\n            n_last_iterations=n_points,\n        )\n\n        self._init_iter_observer(problem, settings[self._MAX_ITER])\n\n        require_gradient = self.ALGORITHM_INFOS[self._algo_name].require_gradient\n        if require_gradient:\n            kkt_abs_tol = settings[self._KKT_TOL_ABS]\n            kkt_rel_tol = settings[self._KKT_TOL_REL]\n            if not isinf(kkt_abs_tol) or not isinf(kkt_rel_tol):\n                kkt_checker = _KKTChecker(\n                    problem,\n                    kkt_abs_tol,\n                    kkt_rel_tol,\n                    settings[self._INEQ_TOLERANCE],\n                )\n                problem.add_listener(\n                    kkt_checker,\n                    at_each_iteration=False,\n                    at_each_function_call=True,\n                )\n                self.__kkt_checkers.append(kkt_checker)\n\n        problem.design_space.initialize_missing_current_values()\n        if problem.differentiation_method == self.DifferentiationMethod.COMPLEX_STEP:\n            problem.design_space.to_complex()\n\n        # First, evaluate all functions at x_0. Some algorithms don't do this\n        output_functions, jacobian_functions = problem.get_functions(\n            jacobian_names=() if require_gradient else None,\n            evaluate_objective=True,\n            observable_names=None,\n        )\n\n        function_values, _ = problem.evaluate_functions(\n            design_vector_is_normalized=self._normalize_ds,\n            output_functions=output_functions or None,\n            jacobian_functions=jacobian_functions or None,\n        )\n\n        scaling_threshold = settings[self._SCALING_THRESHOLD]\n        if scaling_threshold is not None:\n            self._problem.objective = self.__scale(\n                self._problem.objective,\n                function_values[self._problem.objective.name],\n                scaling_threshold,\n            )\n            self._problem.constraints = [\n                self.__scale(\n                    constraint, function_values[constraint.name], scaling_threshold\n                )\n                for constraint in self._problem.constraints\n            ]\n\n    @classmethod\n    def _get_unsuitability_reason(\n        cls,\n        algorithm_description: OptimizationAlgorithmDescription,\n        problem: OptimizationProblem,\n    ) -> _UnsuitabilityReason:\n        reason = super()._get_unsuitability_reason(algorithm_description, problem)\n        if reason:\n            return reason\n\n        if (\n            tuple(problem.constraints.get_equality_constraints())\n            and not algorithm_description.handle_equality_constraints\n        ):\n            return _UnsuitabilityReason.EQUALITY_CONSTRAINTS\n\n        if (\n            tuple(problem.constraints.get_inequality_constraints())\n            and not algorithm_description.handle_inequality_constraints\n        ):\n            return _UnsuitabilityReason.INEQUALITY_CONSTRAINTS\n\n        if not problem.is_linear and algorithm_description.for_linear_problems:\n            return _UnsuitabilityReason.NON_LINEAR_PROBLEM\n\n        return reason\n\n    def _new_iteration_callback(self, x_vect: ndarray) -> None:\n        super()._new_iteration_callback(x_vect)\n        self._f_tol_tester.check(self._problem, raise_exception=True)\n        self._x_tol_tester.check(self._problem, raise_exception=True)\n\n    def _clear_listeners(self, problem: OptimizationProblem) -> None:\n        super()._clear_listeners(problem)\n        # The KKT checker is specific to an execution:\n        # do not let it check the KKT conditions during the next ones.\n        problem.database.clear_listeners(\n            new_iter_listeners=None, store_listeners=self.__kkt_checkers\n        )\n        self.__kkt_checkers.clear()\n\n", "expect": "12.7", "note": "The optimization libraries remove their KKT checker from the store listeners at "},
     {"name": "driver-clears-a-possibly-empty-collection", "file": "algos/base_driver_library.py", "old": "            new_iter_listeners=self.__new_iter_listeners or None, store_listeners=None", "new": "            new_iter_listeners=self.__new_iter_listeners, store_listeners=None", "expect": "12.7"},
     {"name": "driver-clears-all-store-listeners", "file": "algos/base_driver_library.py", "old": "            new_iter_listeners=self.__new_iter_listeners or None, store_listeners=None", "new": "            new_iter_listeners=self.__new_iter_listeners or None", "expect": "12.7"},
     {"name": "seeded-C12-6", "file": "algos/doe/base_doe_library.py", "old": "                )\n            for index, input_value in enumerate(self.samples):\n                try:\n", "new": "                )\n            database = problem.database\n            for index, input_value in enumerate(self.samples):\n                if use_database and database.get(input_value):\n                    # Already evaluated, e.g. loaded from a backup file.\n                    continue\n\n                try:\n", "expect": "12.6", "note": "Sequential DOE skips the samples that already have an entry in the database"},
